@@ -15,6 +15,7 @@ import (
 	"github.com/regclient/regclient/config"
 	"github.com/regclient/regclient/internal/reghttp"
 	"github.com/regclient/regclient/internal/reqmeta"
+	"github.com/regclient/regclient/types/errs"
 	"github.com/regclient/regclient/zzverif/vtrace"
 )
 
@@ -25,6 +26,9 @@ type l1Req struct {
 	Nomir  bool   `json:"nomir"`
 	Ie     bool   `json:"ie"`
 	Expect bool   `json:"expect"`
+	// Oneshot: the body function works once; its second call fails with ErrNotRetryable (what
+	// scheme/reg blobPutUploadFull builds for a source that is no io.Seeker)
+	Oneshot bool `json:"oneshot"`
 }
 
 type l1Conf struct {
@@ -314,7 +318,7 @@ func (r *l1Run) RoundTrip(req *http.Request) (*http.Response, error) {
 
 func apiStep(st map[string]any) bool {
 	switch st["ev"] {
-	case "do", "read", "seek", "note":
+	case "do", "read", "seek", "note", "cancel":
 		return true
 	}
 	return false
@@ -339,6 +343,7 @@ func (r *l1Run) l1Exec(ctx context.Context, client *reghttp.Client, done chan<- 
 	resps := map[string]*reghttp.Resp{}
 	pos := map[string]int{}
 	open := map[string]bool{} // the last Do / Seek succeeded: the body may be read
+	cancels := map[string]context.CancelFunc{}
 	steps := r.s.Steps
 	for i, st := range steps {
 		if !apiStep(st) || ctx.Err() != nil {
@@ -373,10 +378,23 @@ func (r *l1Run) l1Exec(ctx context.Context, client *reghttp.Client, done chan<- 
 			if isMut(rq.Meth) && rq.Meth != "DELETE" {
 				req.BodyBytes = r.content(id)
 				req.BodyLen = int64(len(req.BodyBytes))
+				if rq.Oneshot {
+					body, used := req.BodyBytes, false
+					req.BodyBytes = nil
+					req.BodyFunc = func() (io.ReadCloser, error) {
+						if used {
+							return nil, fmt.Errorf("driver: body source is not a seeker%.0w", errs.ErrNotRetryable)
+						}
+						used = true
+						return io.NopCloser(bytes.NewReader(body)), nil
+					}
+				}
 			}
 			r.rec.add(vtrace.Event{"ev": "do", "id": id, "mut": bit(isMut(rq.Meth)), "nomir": bit(rq.Nomir),
-				"ie": bit(rq.Ie), "tc": r.clk.now()})
-			resp, err := client.Do(ctx, req)
+				"ie": bit(rq.Ie), "tc": r.clk.now(), "os": bit(rq.Oneshot)})
+			cctx, cancel := context.WithCancel(ctx)
+			cancels[id] = cancel
+			resp, err := client.Do(cctx, req)
 			resps[id], pos[id], open[id] = resp, 0, err == nil
 			r.rec.add(vtrace.Event{"ev": "ret", "id": id, "call": "do", "ok": bit(err == nil), "eq": 1, "t": r.clk.now()})
 		case "read":
@@ -403,6 +421,11 @@ func (r *l1Run) l1Exec(ctx context.Context, client *reghttp.Client, done chan<- 
 			_, err := resp.Seek(int64(off), io.SeekStart)
 			pos[id], open[id] = off, err == nil
 			r.rec.add(vtrace.Event{"ev": "ret", "id": id, "call": "seek", "ok": bit(err == nil), "eq": 1, "t": r.clk.now()})
+		case "cancel":
+			if c := cancels[id]; c != nil {
+				c()
+			}
+			r.rec.add(vtrace.Event{"ev": "cancel", "id": id, "t": r.clk.now()})
 		case "note":
 			switch st["what"] {
 			case "close":
@@ -421,6 +444,32 @@ func (r *l1Run) l1Exec(ctx context.Context, client *reghttp.Client, done chan<- 
 			}
 		}
 		r.touch()
+	}
+	for _, c := range cancels {
+		defer c()
+	}
+	if ctx.Err() != nil {
+		return
+	}
+	// quiescence: every response is closed, so every throttle slot of every host must be free
+	for _, h := range r.s.Conf.Hosts {
+		q := client.GetThrottle(h)
+		if q == nil {
+			continue
+		}
+		conc := int(r.hostCfg(h).ReqConcurrent)
+		var held []func()
+		for i := 0; i < conc; i++ {
+			done, err := q.TryAcquire(context.Background(), reqmeta.Data{})
+			if err != nil || done == nil {
+				break
+			}
+			held = append(held, done)
+		}
+		for _, d := range held {
+			d()
+		}
+		r.rec.add(vtrace.Event{"ev": "quiet", "h": h, "free": len(held), "conc": conc, "t": r.clk.now()})
 	}
 }
 
@@ -507,6 +556,8 @@ func l1Compare(pred []map[string]any, got []vtrace.Event) (bool, string) {
 			return "cut " + str(m["id"])
 		case "note":
 			return "note " + str(m["what"])
+		case "quiet":
+			return ""
 		}
 		return ev + " " + str(m["id"])
 	}
@@ -515,6 +566,9 @@ func l1Compare(pred []map[string]any, got []vtrace.Event) (bool, string) {
 		a = append(a, key(str(p["ev"]), p))
 	}
 	for _, g := range got {
+		if g["ev"] == "quiet" {
+			continue // an observation of the driver, not a step of the design
+		}
 		m := map[string]any(g)
 		if m["ok"] != nil {
 			m = map[string]any{"id": m["id"], "call": m["call"], "ok": float64(m["ok"].(int)), "ev": m["ev"]}
